@@ -48,6 +48,11 @@ CHECKS = {
    text="Every JSON document of the bounded grammar (all escape forms, surrogate pairs, raw U+2028/2029/FEFF, exponent spellings, -0, 1e400, 21-digit integers, duplicate and empty keys, whitespace variants, nesting to depth 2-3, concatenated streams) and every single-character edit of 30 seed documents is read by json.Extract/BuildExpr and by encoding/json: validity verdicts must agree and trees must be equal; the decoded value is marshalled again and re-read. Every generator value (hostile strings and keys, number boundary spellings, containers) is marshalled by Value.MarshalJSON, must be valid, free of HTML escaping, read back equal by encoding/json and by CUE itself.",
    note="Trusts Go encoding/json (UseNumber, token stream). Unclaimed: lone surrogate escapes, documents that are not valid UTF-8. Known finding: raw U+FEFF inside strings.",
    ref="DESIGN.md §3 C10"),
+ "C11": dict(engine="enum",
+   technique="bounded-exhaustive enumeration of strings over the YAML-significant alphabet (and implicit-type spellings, boundary numbers, JSON documents) through the real YAML encoder and decoders, both back ends; two independent third-party decoders as cross-check",
+   text="Every string up to the length bound over 37 YAML-significant characters, every YAML 1.1/1.2 implicit-type spelling and the hostile pool, placed as scalar value, mapping key, sequence item and nested value, is encoded by yaml.Encode and must read back as the same data (strings byte-identical, number kind and value, order) through CUE's decoder, for the default goccy back end and the legacy yaml.v3 one; output that both independent decoders misread is also a violation. JSON documents must mean the same under the YAML and JSON decoders.",
+   note="Trusts goccy/go-yaml and go.yaml.in/yaml/v3 only as a 2-of-2 cross-check. Known encoder/decoder findings per back end are listed in known_findings.jsonl.",
+   ref="DESIGN.md §3 C11"),
  "C09": dict(engine="enum",
    technique="bounded-exhaustive enumeration of token strings / strings x quoting forms / literal spellings on the real scanner, parser and literal package (explicit-state, no sampling)",
    text="Every token string up to the length bound, every string over a hostile rune alphabet under every quoting form and every literal-candidate spelling up to the bound is executed on the real code and checked against position invariants, Unquote(Quote(s))==s and three-way validity agreement. Exhaustive within the stated alphabet/bound; says nothing beyond it.",
